@@ -24,7 +24,7 @@ from .. import pipeline as pl
 from .. import tlc
 from ..dist import memoise_lut
 
-INV = ['FeedTiles', 'WholeSetConsumed', 'ProcessedIsTotal', 'EffectiveBatchPositive', 'ResultsAreFinal', 'Increasing', 'LoopSpacing',
+INV = ['FeedTiles', 'WholeSetConsumed', 'ProcessedIsTotal', 'EffectiveBatchPositive', 'ResultsAreFinal', 'Increasing', 'LoopSpacing', 'OrdinarySpacing',
        'FirstLoopAfterStep', 'RemIsLastOfRun', 'EndsAtTotal', 'ColumnsAreComputes', 'NoColumnsWithoutStep']
 
 
@@ -53,7 +53,7 @@ def execute(beh, kind, mode, precision, frame, chain, seed, step=None):
     import scared
     rs = np.random.RandomState(seed)
     pp = pl.preprocesses()
-    a, mk = pl.build(kind, mode, precision, convergence_step=step)
+    a, mk = pl.build(kind, mode, precision, convergence_step=step, layout='CTF'[seed % 3])
     rec = pl.Recorder(a)
     sets = []
     id0 = 0
@@ -75,7 +75,7 @@ def spec_feeds(chk, plan):
         rs = np.random.RandomState(seed)
         for si, n in enumerate(beh['ns']):
             samples, _ = pl.gen_arrays(rs, n, 6, 2)
-            cases.append({'rows': samples.tolist(), 'frame': pl.frame_positions(frame, 6), 'chain': list(chain)})
+            cases.append({'rows': samples.tolist(), 'frame': pl.frame_positions(frame, 6), 'chain': ['minus1' if c == 'lowerhalf' else c for c in chain]})
             owner.append((pi, si))
     path = dh.write_json(cases)
     try:
@@ -92,7 +92,10 @@ def spec_feeds(chk, plan):
     out = {}
     for e in r.emits():
         pi, si = owner[e['case'] - 1]
-        out.setdefault(pi, {})[si] = np.array(e['fed'], dtype='int64').reshape(len(cases[e['case'] - 1]['rows']), -1)
+        fedm = np.array(e['fed'], dtype='int64').reshape(len(cases[e['case'] - 1]['rows']), -1)
+        if 'lowerhalf' in plan[pi][2]:
+            fedm = fedm / 2.0                       # the chain's last preprocess is (x - 1) / 2: the specification's integer feed, halved (exact)
+        out.setdefault(pi, {})[si] = fedm
     if sum(len(v) for v in out.values()) != len(cases):
         raise tlc.TLCError('ContainerFeed: missing cases')
     return out
